@@ -119,6 +119,9 @@ def policy_via_config(pol_kw):
     return KSKMConfig.from_dict(yaml.safe_load(io.StringIO(text))).request_policy
 
 
+DR = vlib.rng("C05-dur")
+
+
 def run_case(kind, n, incs, exps, zsk, pol_kw, now=NOW, shuffle=False, desc=None, fixed_ids=None, via_config=False):
     global accepts
     # bundle ids are opaque: unique, but free to share a long common prefix (operators name them by quarter) or to be UUIDs
@@ -133,7 +136,12 @@ def run_case(kind, n, incs, exps, zsk, pol_kw, now=NOW, shuffle=False, desc=None
     if shuffle:
         R.shuffle(order)
     doc = [bundles[j] for j in order]
-    xml = ksrxml.render_ksr({"id": "req-1", "serial": 1, "domain": ".", "zsk": zsk, "bundles": doc})
+    # the declared bounds spelt as operators may spell them: one case in three uses another ISO 8601 notation of the same periods
+    ksrxml.POLICY_DUR_STYLE[0] = (lambda: DR.choice(["weeks", "weeks", "hours", "minutes", "seconds", "days-hours", "days"])) if DR.random() < 0.34 else None
+    try:
+        xml = ksrxml.render_ksr({"id": "req-1", "serial": 1, "domain": ".", "zsk": zsk, "bundles": doc})
+    finally:
+        ksrxml.POLICY_DUR_STYLE[0] = None
     pol = RequestPolicy(validate_signatures=False, keys_match_zsk_policy=False, check_keys_match_ksk_operator_policy=False,
                         signature_algorithms_match_zsk_policy=False, **pol_kw)
     if via_config:
